@@ -100,7 +100,8 @@ def canonServices : Services → Except String Services
     | .ext (.str ref), .ok r' => .ok ((n, .ext (.map (.str ref) .absent)) :: r')
     | s, .ok r' => .ok ((n, s) :: r')
 
-/-- `absExtendsPath` (run by `paths.ResolveRelativePaths` on the loaded file) asserts `value.(string)` -/
+/-- `absExtendsPath` (run by `paths.ResolveRelativePaths` on the loaded file) rejects a non-string `extends.file`
+("unexpected type …"; before `fix: an extends.file that is not a string is reported as an error` it asserted `value.(string)`) -/
 def hasNonStringFile (svcs : Services) : Bool :=
   svcs.any (fun p => match p.2 with | .ext (.map _ .other) => true | _ => false)
 
@@ -129,7 +130,7 @@ def locate (fs : FS) (main : String) (svcs : Services) (e : ExtVal) : Except Res
         match lookup ref other with
         | none => .error (.err "notFoundInFile")
         | some _ =>
-          if hasNonStringFile other then .error (.panic "paths.absExtendsPath:value.(string)")
+          if hasNonStringFile other then .error (.err "pathNotString")
           else .ok (ref, f, some other)
 
 /--
